@@ -939,20 +939,24 @@ def from_text(
                     rorigin = relativize_to or origin
                 else:
                     rorigin = None
-                rdata = from_wire(
-                    rdclass, rdtype, grdata.data, 0, len(grdata.data), rorigin
-                )
+                rdata = from_wire(rdclass, rdtype, grdata.data, 0, len(grdata.data))
                 #
                 # If this comparison isn't equal, then there must have been
                 # compressed names in the wire format, which is an error,
-                # there being no reasonable context to decompress with.
+                # there being no reasonable context to decompress with.  (The
+                # comparison is made on the record with absolute names: a name
+                # relativized to an origin comes back in the origin's spelling.)
                 #
-                rwire = rdata.to_wire(origin=rorigin)
+                rwire = rdata.to_wire()
                 if rwire != grdata.data:
                     raise dns.exception.SyntaxError(
                         "compressed data in "
                         "generic syntax form "
                         "of known rdatatype"
+                    )
+                if rorigin is not None:
+                    rdata = from_wire(
+                        rdclass, rdtype, grdata.data, 0, len(grdata.data), rorigin
                     )
         if rdata is None:
             rdata = cls.from_text(
